@@ -39,14 +39,23 @@ type postRec struct {
 var c05Posters = 2
 
 func c05Body(x *engine.X) {
-	nposts := [3]int{1 + x.Pick(2, "posts of P1"), 1 + x.Pick(2, "posts of P2"), 0}
-	if c05Posters == 3 {
-		nposts[2] = x.Pick(2, "posts of P3") // 0 or 1
+	// An observer thread that asks Posted() twice (it takes the poller's mutex without ever writing to the waker) is
+	// one configuration of its own — one post per poster, nothing nested, no loop-side activity — because a fourth
+	// thread multiplies the interleavings.
+	asksPosted := x.Pick(2, "an observer thread calls Posted()") == 1
+	nposts := [3]int{1, 1, 0}
+	nested := false
+	loopSide := 0
+	if !asksPosted {
+		nposts = [3]int{1 + x.Pick(2, "posts of P1"), 1 + x.Pick(2, "posts of P2"), 0}
+		if c05Posters == 3 {
+			nposts[2] = x.Pick(2, "posts of P3") // 0 or 1
+		}
+		nested = x.Pick(2, "a posted handler posts again") == 1
+		// loop-side activity between polls: 0 none, 1 arm+cancel a FIFO read, 2 arm+cancel a FIFO write on a full
+		// pipe, 3 arm a FIFO write on a full pipe and drain it (the write interest is disarmed inside Poll's dispatch)
+		loopSide = x.Pick(4, "loop-side poller activity between polls")
 	}
-	nested := x.Pick(2, "a posted handler posts again") == 1
-	// loop-side activity between polls: 0 none, 1 arm+cancel a FIFO read, 2 arm+cancel a FIFO write on a full
-	// pipe, 3 arm a FIFO write on a full pipe and drain it (the write interest is disarmed inside Poll's dispatch)
-	loopSide := x.Pick(4, "loop-side poller activity between polls")
 	epfd := lowestFreeFd()
 	ioc, err := sonic.NewIO()
 	if err != nil {
@@ -171,6 +180,12 @@ func c05Body(x *engine.X) {
 			finishedPosters++
 		})
 	}
+	if asksPosted {
+		s.Go("O", func() {
+			_ = ioc.Posted()
+			_ = ioc.Posted()
+		})
+	}
 	verifshim.Hooks = &verifshim.H{
 		Point: func(kind string) { s.Point(kind) },
 		Lock: func(m *verifshim.Mutex) {
@@ -180,10 +195,21 @@ func c05Body(x *engine.X) {
 				s.Block(func() bool { return !m.Held }, fmt.Sprintf("mutex held by thread %d", owner))
 			}
 			m.Held, m.Owner = true, s.CurrentID()
+			// a thread can lose the processor while it holds the mutex: invisible to threads that would block on it,
+			// but not to one that only tries the lock
+			s.Point("locked")
 		},
 		Unlock: func(m *verifshim.Mutex) {
 			m.Held = false
 			s.Point("unlock")
+		},
+		TryLock: func(m *verifshim.Mutex) bool {
+			s.Point("trylock")
+			if m.Held {
+				return false
+			}
+			m.Held, m.Owner = true, s.CurrentID()
+			return true
 		},
 	}
 	deadlock := s.Run()
